@@ -35,6 +35,22 @@ impl<A: AcceptableMasterList, C: Clock, F: Filter, R: Rng, S: PtpInstanceStateMu
                     .with_ref(|s| s.parent_ds.parent_port_identity)
         {
             let clock_loop_detected = self.instance_state.with_mut(|state| {
+                // Check for a clock loop first: an Announce that is discarded
+                // must not have updated any data set.
+                if state.path_trace_ds.enable {
+                    if let Some(tlv) = message
+                        .suffix
+                        .tlv()
+                        .find(|tlv| tlv.tlv_type == TlvType::PathTrace)
+                    {
+                        let clock_identity = state.default_ds.clock_identity;
+                        if tlv.value.chunks_exact(8).any(|ci| ci == clock_identity.0) {
+                            log::warn!("Clock loop detected");
+                            return true;
+                        }
+                    }
+                }
+
                 let current_ds = &mut state.current_ds;
                 let parent_ds = &mut state.parent_ds;
                 let time_properties_ds = &mut state.time_properties_ds;
@@ -56,12 +72,6 @@ impl<A: AcceptableMasterList, C: Clock, F: Filter, R: Rng, S: PtpInstanceStateMu
                         .tlv()
                         .find(|tlv| tlv.tlv_type == TlvType::PathTrace)
                     {
-                        let clock_identity = state.default_ds.clock_identity;
-                        if tlv.value.chunks_exact(8).any(|ci| ci == clock_identity.0) {
-                            log::warn!("Clock loop detected");
-                            return true;
-                        }
-
                         // Cannot panic as `list` is large enough to contain up to a whole message
                         path_trace_ds.list = tlv
                             .value
